@@ -253,46 +253,84 @@ func runC18Struct(c *Ctx) {
 			continue
 		}
 		fn := FuncName(f)
-		// count comparison: a `!=` between two calls of the same Num*/Length accessor on $1 and $2 leading to return false
-		countCmp, ctypeCmp := false, false
-		// the comparisons must be unconditional: on every path to the element-wise delegation
-		var delegations []ssa.Instruction
-		eachCall(f, func(call ssa.CallInstruction) {
-			if n := calleeName(call); strings.HasSuffix(n, ".structureEq") || (nme == "lineStringsEq" && strings.Contains(n, "lineStringsEq$")) {
-				delegations = append(delegations, call)
-			}
-		})
-		eachInstr(f, func(in ssa.Instruction) {
-			bo, ok := in.(*ssa.BinOp)
-			if !ok || (bo.Op.String() != "!=" && bo.Op.String() != "==") {
-				return
-			}
-			for _, d := range delegations {
-				if !instrDominates(bo, d) {
-					return
+		// decided by interpretation: operands with different element counts, or with
+		// no elements and different coordinates types, must compare unequal even when
+		// every element-wise comparison answers "equal"; equal counts and types with
+		// no elements compare equal. Counts and types are answered wherever the code
+		// asks for them (accessor call, field read, helper).
+		run := func(n1, n2, ct1, ct2 float64) (bool, string) {
+			m := &Model{Num: map[string]float64{}, Bool: map[string]bool{}, Missing: map[string]bool{}}
+			it := &k4interp{p: c.P, m: m, mem: map[string]k4val{}}
+			which := func(key string) int {
+				switch {
+				case strings.Contains(key, "$2"):
+					return 2
+				case strings.Contains(key, "$1"):
+					return 1
 				}
+				return 0
 			}
-			cx, okx := stripLoad(bo.X).(*ssa.Call)
-			cy, oky := stripLoad(bo.Y).(*ssa.Call)
-			if !okx || !oky {
-				return
+			it.answer = func(key string, isBool bool) (k4val, bool) {
+				if isBool {
+					return k4val{kind: 1, b: true}, true // adversarial: every other test says "equal"
+				}
+				w := which(key)
+				if w == 0 {
+					return k4val{}, false
+				}
+				isCount := strings.HasPrefix(key, "len(") || strings.Contains(key, ").Num") || strings.Contains(key, ").Length(")
+				isCT := strings.Contains(key, ").CoordinatesType(") || strings.HasSuffix(key, ".ctype")
+				switch {
+				case isCT && w == 1:
+					return k4val{kind: 2, f: ct1}, true
+				case isCT:
+					return k4val{kind: 2, f: ct2}, true
+				case isCount && w == 1:
+					return k4val{kind: 2, f: n1}, true
+				case isCount:
+					return k4val{kind: 2, f: n2}, true
+				}
+				return k4val{}, false
 			}
-			nx, ny := calleeName(cx), calleeName(cy)
-			if nx != ny {
-				return
+			res, err := it.call(f, []k4val{{kind: 3, s: "$0"}, {kind: 3, s: "$1"}, {kind: 3, s: "$2"}}, nil)
+			if err != nil || len(res) != 1 || res[0].kind != 1 {
+				return false, fmt.Sprintf("cannot interpret: %v %v %s", err, res, missingList(m))
 			}
-			bx, _ := baseObject(cx.Call.Args[0])
-			by, _ := baseObject(cy.Call.Args[0])
-			if bx == by {
-				return
+			return res[0].b, ""
+		}
+		countCmp, ctypeCmp := true, true
+		undec := ""
+		if r, u := run(1, 2, 0, 0); u != "" {
+			undec = u
+		} else if r {
+			countCmp = false
+		}
+		if r, u := run(2, 1, 0, 0); u != "" {
+			undec = u
+		} else if r {
+			countCmp = false
+		}
+		if nme != "polygonsEq" {
+			if r, u := run(0, 0, 0, 1); u != "" {
+				undec = u
+			} else if r {
+				ctypeCmp = false
 			}
-			switch {
-			case strings.Contains(nx, ".Num") || strings.HasSuffix(nx, ".Length"):
-				countCmp = true
-			case strings.HasSuffix(nx, ".CoordinatesType"):
-				ctypeCmp = true
+			if r, u := run(1, 1, 0, 1); u != "" {
+				undec = u
+			} else if r {
+				ctypeCmp = false // members may all be empty: their comparison cannot be relied on for the type
 			}
-		})
+			if r, u := run(0, 0, 1, 1); u != "" {
+				undec = u
+			} else if !r {
+				c.Bad(f.Pos(), fn, "empty operands of the same type", "two operands without elements and with the same coordinates type compare unequal")
+			}
+		}
+		if undec != "" {
+			c.Undecided(f.Pos(), fn, "element count compared", undec)
+			continue
+		}
 		c.Check(countCmp, f.Pos(), fn, "element count compared", "the member/vertex counts of both operands are compared", "the comparator does not compare the element counts of its operands (a prefix would compare equal / index out of range)")
 		if nme == "polygonsEq" {
 			// reviewed: coordinate type carried by the exterior ring comparison
